@@ -244,6 +244,25 @@ def run(ctx):
         obs.append({"z": fhex(float(z[0])), "v": fhex(vo[0]), "I": fhex(Io[0])})
         ctx.count("translator_validation_cuba")
     ctx.compare("kernels", cases, obs, reqs)
+    # ---- the whole reference run (run_cuba_reference_model): hand-written fold around the generated kernel, bitwise ----
+    cases, obs, reqs = [], [], []
+    for _ in range(ctx.n(25, 120)):
+        nn = rng.randrange(1, 4); T = rng.randrange(0, 25)
+        g = np.random.default_rng(rng.randrange(2 ** 32))
+        node = nir.CubaLIF(tau_syn=g.uniform(1e-3, 0.1, nn), tau_mem=g.uniform(1e-3, 0.1, nn), r=g.uniform(-2, 2, nn),
+                           v_leak=g.uniform(-1, 1, nn), v_threshold=g.uniform(0.2, 2, nn), w_in=g.uniform(-2, 2, nn))
+        dt = float(10 ** rng.uniform(-4, -2))
+        data = (g.random((T, nn)) < 0.4).astype(float) * g.uniform(0.5, 5)
+        res = cuba.run_cuba_reference_model(cuba.CubaLIFImplementation(dt, node), data)
+        for j in range(nn):
+            c = {"op": "cuba_run", "args": [fhex(t) for t in (dt, node.tau_syn[j], node.tau_mem[j], node.r[j], node.v_leak[j],
+                                                             node.v_threshold[j], node.w_in[j])],
+                 "xs": [fhex(x) for x in data[:, j]]}
+            cases.append(c); reqs.append(c)
+            obs.append({"z": [fhex(x) for x in res["spikes"][:, j]], "v": [fhex(x) for x in res["voltages"][:, j]],
+                        "I": [fhex(x) for x in res["currents"][:, j]]})
+            ctx.count("cuba_reference_runs"); ctx.count("cuba_reference_steps", T)
+    ctx.compare("cuba_run", cases, obs, reqs)
     # ---- closed-form kernels ---------------------------------------------------------------
     for _ in range(ctx.n(400)):
         p = params(rng, lif)
